@@ -20,6 +20,7 @@ import BBProofs.Cli
 import BBProofs.CliMulti
 import BBProofs.RefPolicy
 import BBProps.C05
+import BBProofs.GenEq5
 
 namespace BB.Cli
 open BB
@@ -406,5 +407,28 @@ example (X : ExpTab) (sched : Nat → List Nat → List Nat) (junk : MR.FS) :
 example : validateOutputDir ["clusters.pkl", "old.txt"] false = .error .value ∧
     validateOutputDir ["clusters.pkl", "old.txt"] true = .ok [] ∧ validateOutputDir [] false = .ok [] := by
   decide
+
+
+/-! ## The same for the code itself (`cli._validate_output_dir`, translated on this run) -/
+
+/-- code: on an existing directory with listing `entries`, the translated `_validate_output_dir` raises (touching nothing)
+exactly when the model refuses; otherwise it empties a non-empty directory by removing and re-creating it, and leaves an
+empty one alone — the model's `validateOutputDir`, to which `C15_outdir`, `C15_outdir_run`, `C15_outdir_refused` apply -/
+theorem C15_code_validate (expf : Rat → Rat) (entries : List String) (overwrite : Bool) :
+    BBGen._validate_output_dir expf (PV.bool overwrite) (PV.bool (!entries.isEmpty)) (PV.bool true) (PV.bool true)
+      = match validateOutputDir entries overwrite with
+        | .error _ => [PV.err "RuntimeError"]
+        | .ok _ => if entries.isEmpty then []
+                   else [PV.str "shutil.rmtree", PV.str "out_dir", PV.str "out_dir.mkdir"] :=
+  gen_validate expf entries overwrite
+
+/-- code: a non-empty directory without `--overwrite` is refused and no effect is performed -/
+theorem C15_code_refused (expf : Rat → Rat) (entries : List String) (hne : entries ≠ []) :
+    BBGen._validate_output_dir expf (PV.bool false) (PV.bool (!entries.isEmpty)) (PV.bool true) (PV.bool true)
+      = [PV.err "RuntimeError"] := by
+  rw [gen_validate]
+  cases entries with
+  | nil => exact absurd rfl hne
+  | cons a l => simp [validateOutputDir]
 
 end BB.Cli
